@@ -776,6 +776,17 @@ func engineCorpus(t *testing.T, out *sink) int {
 			depth: depth, gdepth: 100,
 		})
 	}
+	// the global limit caps the request depth: the same ladders under global depth 3 with request depths above it
+	for _, depth := range []int{3, 4, 5, 9, 1000} {
+		scs = append(scs, sc{
+			nss: doc(ast.Relation{Name: "own"}, ast.Relation{Name: "par"}, ast.Relation{Name: "grp"},
+				ast.Relation{Name: "view", SubjectSetRewrite: or(css("own"), ttu("par", "view"))}),
+			tuples: []string{"Doc:x#par@Doc:y#", "Doc:y#par@Doc:z#", "Doc:z#par@Doc:g#", "Doc:g#own@alice",
+				"Doc:x#grp@Doc:y#grp", "Doc:y#grp@Doc:z#grp", "Doc:z#grp@Doc:g#grp", "Doc:g#grp@alice"},
+			checks: []string{"Doc:x#view@alice", "Doc:y#view@alice", "Doc:z#view@alice", "Doc:g#view@alice", "Doc:x#grp@alice", "Doc:y#grp@alice", "Doc:z#grp@alice"},
+			depth:  depth, gdepth: 3,
+		})
+	}
 	// width ladders: a node with five subject sets, each leading to its own user, under max-width 3 (and 2): which of
 	// them survive the truncation, at the root and one level down, with and without a request depth
 	for _, w := range []int{2, 3} {
@@ -842,12 +853,16 @@ func engineCorpus(t *testing.T, out *sink) int {
 		}
 		// C02, second half, on the SAME stored state: a request depth r under global g answers what a server with global
 		// eff(r,g) answers to a request without depth
-		if s.depth > 0 && s.depth < s.gdepth {
+		if s.depth > 0 && s.depth != s.gdepth {
 			cfgc := ee.e.reg.Config(context.Background())
+			eff := s.depth
+			if eff > s.gdepth {
+				eff = s.gdepth
+			}
 			for _, c := range s.checks {
 				q, _ := (&ketoapi.RelationTuple{}).FromString(c)
 				a := ee.check(q, s.depth)
-				_ = cfgc.Set(config.KeyLimitMaxReadDepth, s.depth)
+				_ = cfgc.Set(config.KeyLimitMaxReadDepth, eff)
 				b := ee.check(q, 0)
 				_ = cfgc.Set(config.KeyLimitMaxReadDepth, s.gdepth)
 				out.emit(fmt.Sprintf("eeff %s %d %d", fmtTuple(q), s.depth, s.gdepth), strings.ReplaceAll(a, " ", "/")+" "+strings.ReplaceAll(b, " ", "/"))
